@@ -230,6 +230,10 @@ var c02pool = []c02be{
 	{"n1", "3", 80},
 	{"n0", "1", 80},
 	{"n5", "20", 8000},
+	{"n6", "0", 80},
+	{"n4", "9", 80},
+	{"n3", "15", 80},
+	{"n2", "25", 80},
 }
 
 func c02addr(net3, i int) string { return fmt.Sprintf("10.0.%d.%s", net3, c02pool[i].last) }
@@ -418,6 +422,14 @@ func c02slbCase(t *testing.T, r *vk.Run, id string, n int, ws []int, mask int, p
 	if !histories {
 		return
 	}
+	// same-count replacement histories: every order x every non-empty replaced subset, for weight
+	// vectors within the quick bound (keeps the thorough tier affordable)
+	replaceHist := n <= 4
+	for i := 0; i < n; i++ {
+		if ws[i] > 3 {
+			replaceHist = false
+		}
+	}
 	// single-change reload histories ending in the same configuration (all available)
 	for pi, p := range perms {
 		// add: the last backend of the order arrives by Update
@@ -454,8 +466,47 @@ func c02slbCase(t *testing.T, r *vk.Run, id string, n int, ws []int, mask int, p
 		if d := c02diff(tab, ctab); d >= 0 {
 			r.Violation("sticky:history-dependent:update-remove", id, fmt.Sprintf("Init(%v) then Update(%v): residue %d -> %s, fresh -> %s", p3, p, d, tab[d], ctab[d]))
 		}
+		if !replaceHist {
+			continue
+		}
+		// replace: the final backends in rmask are new (same count): before the reload their slots
+		// held other addr:port values (pool index n+i); a sticky Balance has been served before the
+		// Update, so bfe's list was already sorted; rw=1 additionally reweights the survivors.
+		for rmask := 1; rmask < 1<<uint(n); rmask++ {
+			for rw := 0; rw < 2; rw++ {
+				if rw == 1 && rmask == 1<<uint(n)-1 {
+					continue // nobody survives, nothing to reweight
+				}
+				oldOrder := make([]int, n)
+				wsOld := make([]int, 2*n)
+				for j, i := range p {
+					if rmask>>uint(i)&1 == 1 {
+						oldOrder[j] = n + i
+						wsOld[n+i] = 1 + i%2
+					} else {
+						oldOrder[j] = i
+						wsOld[i] = ws[i] + rw
+					}
+				}
+				b = c02brr(oldOrder, wsOld)
+				b.Balance(bal_slb.WrrSticky, ks[0][0])
+				b.Update(c02conf(0, p, ws))
+				tab, _ = c02slbTab(b, ks, 1, scratch)
+				r.Evals(1)
+				if d := c02diff(tab, ctab); d >= 0 {
+					sig := "sticky:history-dependent:update-replace"
+					if rw == 1 {
+						sig += "+reweight"
+					}
+					r.Violation(sig, id, fmt.Sprintf("Init(pool %v weights %v), one sticky Balance, Update(pool %v weights %v): residue %d (key %q) -> %s, fresh load of the final config -> %s", oldOrder, wsOld, p, ws, d, ks[d][0], tab[d], ctab[d]))
+				}
+			}
+		}
 	}
 	r.Outcome("slb:update-histories-agree")
+	if replaceHist {
+		r.Outcome("slb:replace-histories-agree")
+	}
 }
 
 // ---------------------------------------------------------------- part B: sub-cluster selection
@@ -740,6 +791,75 @@ func c02build(g []c02sub, t, pv int) *c02built {
 	return out
 }
 
+// c02buildReloaded reaches the same final configuration as c02build(g, t, rv+1) through a backend
+// reload: every sub-cluster first holds a configuration in which a non-empty subset of its final
+// backends is replaced by other addr:port values (same count; odd variants also reweight the
+// survivors), serves sticky requests (so bfe's list is already sorted), then BackendReload brings
+// the final backend table.
+func c02buildReloaded(t *testing.T, g []c02sub, ti, rv int, warm c02keyset) (*c02built, string) {
+	out := &c02built{tmpl: map[string]c02tmpl{}, net3: map[string]int{}}
+	cbOld, cbNew := cluster_table_conf.ClusterBackend{}, cluster_table_conf.ClusterBackend{}
+	oldAvail := map[string]int{}
+	gm := gslb_conf.GslbClusterConf{}
+	for _, s := range g {
+		gm[s.name] = s.w
+	}
+	desc := ""
+	for j, s := range g {
+		if s.name == "GSLB_BLACKHOLE" {
+			continue
+		}
+		tm := c02tmpls[(ti+j)%len(c02tmpls)]
+		out.tmpl[s.name] = tm
+		out.net3[s.name] = j + 1
+		m := len(tm.ws)
+		if m == 0 {
+			continue
+		}
+		v := rv % (2 * (1<<uint(m) - 1))
+		rmask, rw := v/2+1, v%2
+		ps := c02perms(m)
+		pOld, pNew := ps[rv%len(ps)], ps[(rv+1)%len(ps)]
+		oldOrder := make([]int, m)
+		wsOld := make([]int, 2*m)
+		avail := 0
+		for k, i := range pOld {
+			if rmask>>uint(i)&1 == 1 {
+				oldOrder[k] = m + i
+				wsOld[m+i] = 1 + i%2
+				avail |= 1 << uint(m+i)
+			} else {
+				oldOrder[k] = i
+				wsOld[i] = tm.ws[i] + rw
+				if tm.down>>uint(i)&1 == 0 {
+					avail |= 1 << uint(i)
+				}
+			}
+		}
+		oldAvail[s.name] = avail
+		cbOld[s.name] = c02conf(j+1, oldOrder, wsOld)
+		cbNew[s.name] = c02conf(j+1, pNew, tm.ws)
+		desc += fmt.Sprintf("%s: pool%v w%v -> pool%v w%v; ", s.name, oldOrder, wsOld, pNew, tm.ws)
+	}
+	bal := NewBalanceGslb("cluster")
+	bal.Init(gm)
+	bal.BackendInit(cbOld)
+	for _, sc := range bal.subClusters {
+		c02setAvail(sc.backends, out.net3[sc.Name], oldAvail[sc.Name])
+	}
+	c02setBasic(bal, cluster_conf.ClientIpOnly, "X-Uid", true)
+	for _, keys := range warm {
+		bal.Balance(c02req{ip: net.IP(keys[0]), uri: "/"}.build())
+	}
+	bal.BackendReload(cbNew)
+	for _, sc := range bal.subClusters {
+		tm := out.tmpl[sc.Name]
+		c02setAvail(sc.backends, out.net3[sc.Name], (1<<uint(len(tm.ws))-1)&^tm.down)
+	}
+	out.bal = bal
+	return out, desc
+}
+
 type c02req struct {
 	hdr    string // X-Uid value ("" = header absent)
 	cookie string // value of cookie UID ("" = absent)
@@ -934,6 +1054,49 @@ func c02balCase(t *testing.T, r *vk.Run, id string, gi, ti, nvariants int) {
 			}
 		}
 	}
+
+	// backend-reload histories (BalanceGslb.BackendReload -> BalanceRR.Update) ending in the same
+	// final configuration: same-count replacement of every non-empty subset, +/- reweight
+	maxVar := 1
+	for j, s := range g {
+		if m := len(c02tmpls[(ti+j)%len(c02tmpls)].ws); s.name != "GSLB_BLACKHOLE" && 2*(1<<uint(m)-1) > maxVar {
+			maxVar = 2 * (1<<uint(m) - 1)
+		}
+	}
+	for rv := 0; rv < maxVar; rv++ {
+		b, desc := c02buildReloaded(t, g, ti, rv, c02cover(t, c02kIP4, L, 1))
+		for _, si := range []int{2, 0} { // ip-only/v4 and id-only/header
+			sh := c02shapes[si]
+			c02setBasic(b.bal, sh.strategy, sh.header, true)
+			for _, keys := range c02cover(t, sh.kind, L, 1) {
+				key := keys[0]
+				h := murmur3.Sum64(key)
+				expSub := subTab[h%uint64(W)]
+				req := sh.mk(key, 0).build()
+				be, err := b.bal.Balance(req)
+				r.Evals(1)
+				if got := req.Backend.SubclusterName; got != expSub {
+					r.Violation("balance:history-dependent:backend-reload:subcluster-differs", id, fmt.Sprintf("reload variant %d (%s) key %q: SubclusterName %q, fresh load of the final config says %q", rv, desc, key, got, expSub))
+					continue
+				}
+				bt, has := beTab[expSub]
+				if !has || expSub == "GSLB_BLACKHOLE" {
+					r.Outcome("balance:after-reload:no-backend-expected")
+					continue
+				}
+				expBe := bt[h%uint64(len(bt))]
+				got := fmt.Sprintf("!error(%v)", err)
+				if err == nil && be != nil {
+					got = be.AddrInfo
+				}
+				if got != expBe {
+					r.Violation("balance:history-dependent:backend-reload-replace:sticky-backend-differs", id, fmt.Sprintf("reload variant %d (%s): sticky requests served, then BackendReload; key %q (hash mod %d = %d) in sub-cluster %s -> %s, fresh load of the final config -> %s", rv, desc, key, len(bt), h%uint64(len(bt)), expSub, got, expBe))
+				} else {
+					r.Outcome("balance:after-reload:backend-as-fresh-load")
+				}
+			}
+		}
+	}
 }
 
 // c02correlationProbe (information only, never a violation): sub-cluster and backend level hash
@@ -1089,7 +1252,7 @@ func TestVerifC02(t *testing.T) {
 		guard("probe", false, func() { c02correlationProbe(t, r) })
 	}
 
-	r.Set("bounds", fmt.Sprintf("A: <=%d backends (thorough also 5 with w<=2), configured weight -1..%d, every availability subset, all n! orders (availability also changed after first use for the identity and reversed order), Update histories add/reweight/remove for every order; residues mod 100*W fully covered (2 keys/residue canonical). B: <=%d sub-clusters out of %d names (incl. GSLB_BLACKHOLE), weight -1..%d, Init once per insertion order, Reload add-one(each)/reweight/remove; residues mod W fully covered (4 keys/residue). C: %d gslb configs x %d backend templates x %d orderings x sticky on/off x %d keyed request shapes x 2 distractor variants x every residue mod lcm(W, 100*W_sub...)",
+	r.Set("bounds", fmt.Sprintf("A: <=%d backends (thorough also 5 with w<=2), configured weight -1..%d, every availability subset, all n! orders (availability also changed after first use for the identity and reversed order), Update histories add/reweight/remove for every order, and (n<=4, w<=3) same-count replacement of every non-empty subset of the final backends by other addr:port values, with and without reweighting the survivors, always after a sticky Balance; residues mod 100*W fully covered (2 keys/residue canonical). B: <=%d sub-clusters out of %d names (incl. GSLB_BLACKHOLE), weight -1..%d, Init once per insertion order, Reload add-one(each)/reweight/remove; residues mod W fully covered (4 keys/residue). C: %d gslb configs x %d backend templates x %d orderings x sticky on/off x %d keyed request shapes x 2 distractor variants x every residue mod lcm(W, 100*W_sub...); plus BackendReload histories (sticky requests, then same-count replacement of every non-empty subset per sub-cluster +/- reweight) for 2 request shapes",
 		maxNA, maxWA, maxNB, len(c02names), maxWB, len(c02gconfs), len(c02tmpls), nvar, len(c02shapes)))
 	r.Set("map_order_note", "BalanceGslb.Init/Reload and BalanceRR.Update range over Go maps; the iteration order cannot be chosen from outside. Init is run once per insertion order and must give one table; Reload/Update histories with exactly one new element give a deterministic unsorted pre-sort list.")
 }
